@@ -144,7 +144,7 @@ fn gen_pattern(r: &mut Rng, depth: usize, nfree: usize, next_b: &mut Name, scope
     PT::Node { op: o.name, slots, kids }
 }
 
-const PAT_OPS: &[&str] = &["f", "g", "h", "k", "var", "c", "d", "u", "w", "app", "pair", "lam", "sum", "let", "idx"];
+const PAT_OPS: &[&str] = &["f", "g", "h", "k", "var", "c", "d", "u", "w", "app", "pair", "lam", "sum", "let", "idx", "bb", "ite", "sb"];
 
 /// bottom-up instantiation of a pattern with a substitution using only lookup (no insertion)
 fn inst_by_lookup(eg: &EGraph<LSym>, pat: &Pattern<LSym>, subst: &Subst) -> Result<AppliedId, String> {
@@ -370,6 +370,15 @@ pub fn c05_case(rng: &mut Rng) -> CaseOut {
                         Fld::P => {}
                     }
                 }
+                // one name for two slots of one pattern node (nested binders re-using a name, a binder named like a slot argument, a
+                // repeated slot argument): any parseable multi-pattern is a legal input, and whatever it matches must be validated
+                let slot_pos: Vec<usize> = (1..parts.len()).filter(|i| parts[*i].starts_with('$')).collect();
+                if slot_pos.len() >= 2 && r.chance(1, 6) {
+                    let (a, b) = (slot_pos[r.below(slot_pos.len())], slot_pos[r.below(slot_pos.len())]);
+                    if parts[a] != parts[b] {
+                        parts[a] = parts[b].clone();
+                    }
+                }
                 let txt = if parts.len() == 1 { parts.pop().unwrap() } else { format!("({})", parts.join(" ")) };
                 eqs.push((me.clone(), txt, kids));
                 me
@@ -434,6 +443,9 @@ pub fn c05_case(rng: &mut Rng) -> CaseOut {
             }
         };
         out.inc("multipatterns");
+        if eqs.iter().any(|(_, n, _)| { let toks: Vec<&str> = n.trim_matches(|c| c == '(' || c == ')').split(' ').filter(|t| t.starts_with('$')).collect(); toks.len() > toks.iter().collect::<BTreeSet<_>>().len() }) {
+            out.inc("multipatterns_with_one_name_for_two_slots_of_a_node");
+        }
         if fingerprint(&eg, &handles) != before {
             out.fail(Fail::new("matching-changed-state", "multi_ematch", format!("multi_ematch({mtxt}) changed the observable state"), cj));
             return out;
@@ -945,9 +957,183 @@ pub fn c04_selfref_case(rng: &mut Rng) -> CaseOut {
     out
 }
 
+/// C04, several symmetric children: a node with two or three children whose classes carry argument symmetries over shared slots
+/// (optionally below a slot field that pins one of them). The instance is inserted in one arrangement; the left pattern writes every
+/// child in another arrangement taken from that child's symmetry group, so the pattern's instance is represented only through the
+/// earlier unions - one of (|G1| * |G2| * |G3|) ways of writing it, all of which have to fire.
+pub fn c04_multisym_case(rng: &mut Rng) -> CaseOut {
+    let mut out = CaseOut::default();
+    let mut names: Vec<usize> = (0..5).collect();
+    rng.shuffle(&mut names);
+    let nslots = rng.range(2, 3);
+    let sl: Vec<String> = (0..nslots).map(|i| format!("$p{}", names[i])).collect();
+    // leaf operators with their asserted position symmetries (generators)
+    let gens_of = |op: &str, rng: &mut Rng| -> Vec<Vec<usize>> {
+        match op {
+            "f" | "k" => vec![vec![1, 0]],
+            _ => match rng.below(4) {
+                0 => vec![vec![1, 0, 2]],
+                1 => vec![vec![1, 2, 0]],
+                2 => vec![vec![0, 2, 1]],
+                _ => vec![vec![1, 0, 2], vec![1, 2, 0]],
+            },
+        }
+    };
+    let nkids = rng.range(2, 3);
+    let mut kid_ops: Vec<&'static str> = vec![];
+    for _ in 0..nkids {
+        kid_ops.push(if nslots == 3 && rng.chance(1, 2) { "h" } else { *rng.pick(&["f", "k"]) });
+    }
+    let mut op_gens: BTreeMap<&'static str, Vec<Vec<usize>>> = BTreeMap::new();
+    for o in &kid_ops {
+        if !op_gens.contains_key(o) {
+            let g = gens_of(o, rng);
+            op_gens.insert(o, g);
+        }
+    }
+    // arrangement of instance slots per child (distinct slots), and an equivalent arrangement for the pattern
+    let arity = |o: &str| if o == "h" { 3 } else { 2 };
+    let orbit = |start: &Vec<usize>, gens: &Vec<Vec<usize>>| -> Vec<Vec<usize>> {
+        let mut seen = vec![start.clone()];
+        let mut i = 0;
+        while i < seen.len() {
+            for g in gens {
+                let nx: Vec<usize> = (0..g.len()).map(|p| seen[i][g[p]]).collect();
+                if !seen.contains(&nx) {
+                    seen.push(nx);
+                }
+            }
+            i += 1;
+        }
+        seen
+    };
+    let mut inst_args: Vec<Vec<usize>> = vec![];
+    let mut pat_args: Vec<Vec<usize>> = vec![];
+    let mut ways = 1usize;
+    for o in &kid_ops {
+        let mut idx: Vec<usize> = (0..nslots).collect();
+        rng.shuffle(&mut idx);
+        idx.truncate(arity(o));
+        let orb = orbit(&idx, &op_gens[o]);
+        ways *= orb.len();
+        pat_args.push(orb[rng.below(orb.len())].clone());
+        inst_args.push(idx);
+    }
+    let leaf_txt = |o: &str, args: &Vec<usize>, nm: &dyn Fn(usize) -> String| format!("({o} {})", args.iter().map(|a| nm(*a)).collect::<Vec<_>>().join(" "));
+    let inst_nm = |i: usize| sl[i].clone();
+    let pat_nm = |i: usize| format!("$s{i}");
+    let parent_kind = rng.below(4);
+    let pin = rng.below(nslots);
+    let parent = |kids: &Vec<String>, nm: &dyn Fn(usize) -> String| -> String {
+        let core = if kids.len() == 3 { format!("(ite {} {} {})", kids[0], kids[1], kids[2]) } else if parent_kind % 2 == 0 { format!("(app {} {})", kids[0], kids[1]) } else { format!("(pair {} {})", kids[0], kids[1]) };
+        if parent_kind >= 2 { format!("(app (g {}) {core})", nm(pin)) } else { core }
+    };
+    let inst_kids: Vec<String> = kid_ops.iter().zip(inst_args.iter()).map(|(o, a)| leaf_txt(o, a, &inst_nm)).collect();
+    let pat_kids: Vec<String> = kid_ops.iter().zip(pat_args.iter()).map(|(o, a)| leaf_txt(o, a, &pat_nm)).collect();
+    let inst_l = parent(&inst_kids, &inst_nm);
+    let lhs = parent(&pat_kids, &pat_nm);
+    let lhs_inst = parent(&kid_ops.iter().zip(pat_args.iter()).map(|(o, a)| leaf_txt(o, a, &inst_nm)).collect(), &inst_nm);
+    // right side: lists every slot the left side mentions, in a random order
+    let mut used: Vec<usize> = pat_args.iter().flatten().copied().collect();
+    if parent_kind >= 2 {
+        used.push(pin);
+    }
+    used.sort();
+    used.dedup();
+    rng.shuffle(&mut used);
+    let rhs_of = |nm: &dyn Fn(usize) -> String| -> String {
+        let mut t = format!("(g {})", nm(used[0]));
+        for u in &used[1..] {
+            t = format!("(pair (g {}) {t})", nm(*u));
+        }
+        format!("(w {t})")
+    };
+    let (rhs, inst_r) = (rhs_of(&pat_nm), rhs_of(&inst_nm));
+    let mut log = vec![];
+    let mut eg: EGraph<LSym> = EGraph::default();
+    let sym_first = rng.chance(1, 2);
+    let res = guard(|| -> AppliedId {
+        for _ in 0..rng.below(3) {
+            let d = small_term(rng, &[0, 1, 2]);
+            log.push(format!("add {}", d.text(&LSYM, &pname)));
+            eg.add_expr(to_rec::<LSym>(&LSYM, &d));
+        }
+        let mut root = None;
+        for phase in 0..2 {
+            if (phase == 0) == sym_first {
+                for (o, gens) in &op_gens {
+                    for g in gens {
+                        let id: Vec<usize> = (0..g.len()).collect();
+                        let a = leaf_txt(o, &id, &|i| format!("$p{i}"));
+                        let b = leaf_txt(o, g, &|i| format!("$p{i}"));
+                        log.push(format!("union {a} = {b}"));
+                        let x = eg.add_expr(RecExpr::parse(&a).unwrap());
+                        let y = eg.add_expr(RecExpr::parse(&b).unwrap());
+                        eg.union(&x, &y);
+                    }
+                }
+            } else {
+                log.push(format!("add {inst_l}"));
+                root = Some(eg.add_expr(RecExpr::parse(&inst_l).unwrap()));
+            }
+        }
+        root.unwrap()
+    });
+    let Ok(root) = res else {
+        out.inconclusive = Some("setup panicked (reported by C02/C08)".into());
+        return out;
+    };
+    log.push(format!("rule: {lhs} => {rhs}"));
+    let cj = J::obj(vec![("log", J::arr_s(&log)), ("instance", J::s(lhs_inst.clone())), ("expected", J::s(inst_r.clone()))]);
+    if !no_redundancy(&eg) {
+        out.inc("skipped_redundancy_in_egraph");
+        return out;
+    }
+    let il: RecExpr<LSym> = RecExpr::parse(&lhs_inst).unwrap();
+    if lookup_rec_expr(&il, &eg).map(|x| !eg.eq(&x, &root)).unwrap_or(true) {
+        out.inc("skipped_instance_not_represented");
+        return out;
+    }
+    let rw = Rewrite::<LSym>::new("planted", &lhs, &rhs);
+    if let Err(p) = guard(|| apply_rewrites(&mut eg, &[rw])) {
+        out.fail(Fail::panic("panic-in-apply", &p, "apply_rewrites", cj));
+        return out;
+    }
+    out.inc("plantings_judged");
+    out.inc("plantings_with_several_symmetric_children");
+    out.inc("plantings_with_symmetric_class");
+    if ways >= 8 {
+        out.inc("plantings_with_eight_or_more_arrangements");
+    }
+    let ir: RecExpr<LSym> = RecExpr::parse(&inst_r).unwrap();
+    match guard(|| lookup_rec_expr(&ir, &eg)) {
+        Ok(Some(x)) => {
+            if !eg.eq(&x, &root) {
+                out.fail(Fail::new("instance-did-not-fire", "rhs-not-equal", format!("rule {lhs} => {rhs}: after one application {inst_r} is represented but not equal to the instance {lhs_inst} (equal to the inserted {inst_l} through the symmetries of its children)"), cj));
+                return out;
+            }
+        }
+        Ok(None) => {
+            out.fail(Fail::new("instance-did-not-fire", "rhs-not-represented", format!("rule {lhs} => {rhs}: after one application the right-hand instance {inst_r} of the instance {lhs_inst} (equal to the inserted {inst_l} through the symmetries of its children) is not represented"), cj));
+            return out;
+        }
+        Err(p) => {
+            out.fail(Fail::panic("panic-in-lookup", &p, "lookup of the right-hand instance", cj));
+            return out;
+        }
+    }
+    let mut hsh = 0;
+    for l in &log {
+        hsh = Rng::mix(hsh, crate::rng::fnv(l));
+    }
+    out.nontrivial = Some(hsh);
+    out.sample = Some(J::obj(vec![("mode", J::s("several symmetric children")), ("log", J::arr_s(&log)), ("expected", J::s(inst_r))]));
+    out
+}
+
 pub fn run(args: &Args, rep: &mut Rep) {
     if args.prop == "C04" {
-        drive(args, rep, |rng, _| if rng.chance(1, 8) { c04_selfref_case(rng) } else { c04_case(rng) });
+        drive(args, rep, |rng, _| if rng.chance(1, 8) { c04_selfref_case(rng) } else if rng.chance(1, 7) { c04_multisym_case(rng) } else { c04_case(rng) });
     } else {
         drive(args, rep, |rng, _| c05_case(rng));
     }
